@@ -72,15 +72,43 @@ func runC01Git(c *Ctx) {
 	if t.Choose(3, "GIT_LFS_PROGRESS") == 1 {
 		w.ExtraEnv = append(w.ExtraEnv, "GIT_LFS_PROGRESS="+filepath.Join(w.Root, "progress.log"))
 	}
-	// pointer extensions: none, size-preserving, shrinking, growing
-	extKind := []string{"", "", "", "rot", "gz", "b64"}[t.Choose(6, "pointer-extension")]
+	// pointer extensions: none, size-preserving, shrinking, growing, two at
+	// once of which one leaves some inputs alone (and is then not recorded in
+	// the pointer), one that can be made to fail
+	extKind := []string{"", "", "", "rot", "gz", "b64", "cgz+b64", "fail"}[t.Choose(8, "pointer-extension")]
 	ext := extKind != ""
-	extClean := map[string]string{"rot": "tr A-Za-z N-ZA-Mn-za-m", "gz": "gzip -nc", "b64": "base64"}[extKind]
-	extSmudge := map[string]string{"rot": "tr A-Za-z N-ZA-Mn-za-m", "gz": "gzip -dc", "b64": "base64 -d"}[extKind]
+	extDir := filepath.Join(w.Root, "ext")
+	os.MkdirAll(extDir, 0755)
+	script := func(name, body string) string {
+		p := filepath.Join(extDir, name)
+		os.WriteFile(p, []byte("#!/bin/sh\n"+body+"\n"), 0755)
+		return p
+	}
+	failFlag := filepath.Join(extDir, "fail-now")
+	type extSpec struct{ name, clean, smudge string }
+	var exts []extSpec // in priority order
+	switch extKind {
+	case "rot":
+		exts = []extSpec{{"rot", "tr A-Za-z N-ZA-Mn-za-m", "tr A-Za-z N-ZA-Mn-za-m"}}
+	case "gz":
+		exts = []extSpec{{"gz", "gzip -nc", "gzip -dc"}}
+	case "b64":
+		exts = []extSpec{{"b64", "base64", "base64 -d"}}
+	case "cgz+b64":
+		// compresses unless the input already is gzip data
+		cgz := script("cgz-clean", `t=$(mktemp); cat >"$t"; if gzip -t "$t" 2>/dev/null; then cat "$t"; else gzip -nc "$t"; fi; rm -f "$t"`)
+		exts = []extSpec{{"cgz", cgz, "gzip -dc"}, {"b64", "base64", "base64 -d"}}
+	case "fail":
+		// dies half way (after reading its input) while the flag file exists
+		fc := script("fail-clean", `if [ -e "`+failFlag+`" ]; then cat >/dev/null; printf 'partial output'; exit 3; fi; exec tr A-Za-z N-ZA-Mn-za-m`)
+		exts = []extSpec{{"flaky", fc, "tr A-Za-z N-ZA-Mn-za-m"}}
+	}
+	for i, e := range exts {
+		w.MustGit(u, "config", "lfs.extension."+e.name+".clean", e.clean)
+		w.MustGit(u, "config", "lfs.extension."+e.name+".smudge", e.smudge)
+		w.MustGit(u, "config", "lfs.extension."+e.name+".priority", fmt.Sprint(i))
+	}
 	if ext {
-		w.MustGit(u, "config", "lfs.extension."+extKind+".clean", extClean)
-		w.MustGit(u, "config", "lfs.extension."+extKind+".smudge", extSmudge)
-		w.MustGit(u, "config", "lfs.extension."+extKind+".priority", "0")
 		c.Probe("pointer-extension-" + extKind)
 	}
 	os.WriteFile(filepath.Join(u, ".gitattributes"), []byte("*.bin filter=lfs diff=lfs merge=lfs -text\n*.ltxt filter=lfs diff=lfs merge=lfs-text -text\n"), 0644)
@@ -97,17 +125,20 @@ func runC01Git(c *Ctx) {
 	w.MustGit(u, "add", ".gitattributes")
 	w.MustGit(u, "commit", "-q", "-m", "attrs")
 
-	// what the extension's clean command makes of the content (the same
-	// program git-lfs runs, run here by the harness)
+	// what the extensions' clean commands make of the content (the same
+	// programs git-lfs runs, run here by the harness in priority order)
 	rot := func(b []byte) []byte {
-		cmd := exec.Command("sh", "-c", extClean)
-		cmd.Stdin = bytes.NewReader(b)
-		cmd.Env = append(os.Environ(), "LC_ALL=C")
-		o, err := cmd.Output()
-		if err != nil {
-			panic(sim.HarnessError{Msg: "extension program failed in the harness: " + err.Error()})
+		for _, e := range exts {
+			cmd := exec.Command("sh", "-c", e.clean)
+			cmd.Stdin = bytes.NewReader(b)
+			cmd.Env = append(os.Environ(), "LC_ALL=C")
+			o, err := cmd.Output()
+			if err != nil {
+				panic(sim.HarnessError{Msg: "extension program failed in the harness: " + err.Error()})
+			}
+			b = o
 		}
-		return o
+		return b
 	}
 	// checkBlob: the blob must be the pointer naming what is stored, and
 	// smudging it must give the original bytes back.
@@ -147,13 +178,33 @@ func runC01Git(c *Ctx) {
 	nfiles := 1 + t.Choose(4, "n-files")
 	for i := 0; i < nfiles && c.Res.Class == ""; i++ {
 		data, class := genPayload(t, i)
+		if extKind == "cgz+b64" && len(data) > 0 && t.Bool(1, 2, "payload-already-gzip") {
+			cmd := exec.Command("gzip", "-nc")
+			cmd.Stdin = bytes.NewReader(data)
+			if o, err := cmd.Output(); err == nil {
+				data, class = o, class+"+gzipped"
+			}
+		}
+		failing := extKind == "fail" && t.Bool(1, 2, "extension-fails-now") && len(data) > 0
+		os.Remove(failFlag)
+		if failing {
+			os.WriteFile(failFlag, []byte("1"), 0644)
+		}
 		name := fmt.Sprintf("f%d.bin", i)
 		full := filepath.Join(u, name)
 		what := fmt.Sprintf("%s (%s)", name, class)
 		switch t.Choose(3, "how") {
 		case 0: // plain git add
 			os.WriteFile(full, data, 0644)
-			if out, code := w.Git(u, "add", name); code != 0 {
+			out, code := w.Git(u, "add", name)
+			os.Remove(failFlag)
+			if code != 0 {
+				if failing {
+					os.Remove(failFlag)
+					os.Remove(full)
+					c.Probe("clean-refused-when-extension-failed")
+					continue
+				}
 				c.Violation("add-failed", "git add %s failed: %s", what, firstLine(out))
 				return
 			}
@@ -171,7 +222,14 @@ func runC01Git(c *Ctx) {
 			}
 			what += " via hash-object --path with " + state + " file at the path"
 			id, code := w.Run(u, &RunOpts{Stdin: data}, "git", "hash-object", "-w", "--path="+name, "--stdin")
+			os.Remove(failFlag)
 			if code != 0 {
+				if failing {
+					os.Remove(failFlag)
+					os.Remove(full)
+					c.Probe("clean-refused-when-extension-failed")
+					continue
+				}
 				c.Violation("add-failed", "git hash-object for %s failed: %s", what, firstLine(id))
 				return
 			}
@@ -180,6 +238,13 @@ func runC01Git(c *Ctx) {
 		}
 		blob, _ := w.GitQ(u, "rev-parse", ":"+name)
 		blob = strings.TrimSpace(blob)
+		if failing {
+			// the extension died, yet Git was handed a blob: it cannot name the content
+			os.Remove(failFlag)
+			ptrText, _ := w.GitQ(u, "cat-file", "blob", blob)
+			c.Violation("clean-accepted-failed-extension", "%s: the pointer extension exited with status 3 after writing partial output, but clean succeeded and Git stored %q", what, clipStr(ptrText, 200))
+			return
+		}
 		checkBlob(what, blob, data)
 		if c.Res.Class != "" {
 			return
